@@ -40,7 +40,7 @@ Proj(c) == [proto |-> c.proto, strat |-> c.strat, ports |-> c.ports, priv |-> c.
             inflight |-> c.max_inflight, initseq |-> c.init_seq, psize |-> c.psize, fam |-> c.fam]
 Class(r) == IF r = "ok" THEN "run"
             ELSE IF SubSeq(r, 1, 10) = "build-err:" THEN "reject-builder"
-            ELSE IF r = "err:packet-size" THEN "reject-start"
+            ELSE IF r \in {"err:packet-size", "err:bad-config"} THEN "reject-start"
             ELSE "other"
 C16_Outcome == At("end") /\ cf.e = "cfg" /\ ~E.panic => Class(E.result) = Outcome(Proj(cf))
 
